@@ -186,6 +186,45 @@ func Assert(id string, c bool) {
 	}
 }
 
+// AllocLimit(id, n): from here on no slice allocation of the code under test may exceed n
+// bytes, whatever the inputs (n = 0 ends the check). Under the engine every make() is a
+// solver query "capacity * element size <= n". Natively the bytes allocated while the limit
+// was in force are measured (runtime.MemStats.TotalAlloc) when the limit is lifted or the
+// harness ends; only a failure leaves an event.
+func AllocLimit(id string, n int) {
+	allocFinish()
+	if n > 0 {
+		var ms runtime.MemStats
+		runtime.ReadMemStats(&ms)
+		allocID, allocMax, allocBase = id, uint64(n), ms.TotalAlloc
+	}
+}
+
+var (
+	allocID             string
+	allocMax, allocBase uint64
+)
+
+// allocSlack: none - the limits the harnesses set carry their own headroom for the small
+// allocations of the harness and the runtime.
+const allocSlack = 0
+
+func allocFinish() {
+	if allocID == "" {
+		return
+	}
+	var ms runtime.MemStats
+	runtime.ReadMemStats(&ms)
+	id := allocID
+	allocID = ""
+	if ms.TotalAlloc-allocBase > allocMax+allocSlack {
+		mu.Lock()
+		emit("A:" + id + ":0")
+		Failed = append(Failed, id)
+		mu.Unlock()
+	}
+}
+
 // Check is Assert for the native build; under the engine the path is not narrowed to the
 // states where the condition held (the harness goes on to examine the bad state).
 func Check(id string, c bool) { Assert(id, c) }
@@ -487,6 +526,7 @@ func RunReplay(f func()) (panicked interface{}) {
 			emit(fmt.Sprintf("P:%v", r))
 		}
 	}()
+	defer allocFinish()
 	f()
 	return nil
 }
@@ -535,6 +575,16 @@ func OSFaults(n int) {}
 // OSFaultsLeft: how many of the failures allowed by OSFaults have not been injected yet
 // (engine only; natively 0 - the injection is strace's and the harness cannot see it).
 func OSFaultsLeft() int { return 0 }
+
+// FileSize returns the length of a file: in the engine's OS model, natively through os.Stat
+// (^0 if absent).
+func FileSize(path string) uint64 {
+	st, err := os.Stat(path)
+	if err != nil {
+		return ^uint64(0)
+	}
+	return uint64(st.Size())
+}
 
 // OSFileLen returns the length of a file in the engine's OS model (^0 if absent).
 func OSFileLen(path string) uint64 { return ^uint64(0) }
